@@ -306,7 +306,11 @@ impl Interceptor for Icept {
             .map(|r| r.3.clone());
         if sh.plan.crash_at == Some(idx) || rule.as_deref() == Some("crash") {
             sh.halted.store(true, SeqCst);
-            sh.trace.lock().unwrap().push(json!({"i": idx, "actor": self.actor, "verb": verb, "path": call.path, "halt": "before"}));
+            let payload = match (&call.content, call.verb) {
+                (Some(c), HookVerb::Write) => decode_payload(&call.path, c),
+                _ => Value::Null,
+            };
+            sh.trace.lock().unwrap().push(json!({"i": idx, "actor": self.actor, "verb": verb, "path": call.path, "halt": "before", "payload": payload}));
             sh.halt_notify.notify_one();
             std::future::pending::<()>().await;
         }
@@ -319,7 +323,11 @@ impl Interceptor for Icept {
                     made = std::fs::write(&p, b"").is_ok();
                 }
             }
-            sh.trace.lock().unwrap().push(json!({"i": idx, "actor": self.actor, "verb": verb, "path": call.path, "halt": "empty", "made": made}));
+            let payload = match (&call.content, call.verb) {
+                (Some(c), HookVerb::Write) => decode_payload(&call.path, c),
+                _ => Value::Null,
+            };
+            sh.trace.lock().unwrap().push(json!({"i": idx, "actor": self.actor, "verb": verb, "path": call.path, "halt": "empty", "made": made, "payload": payload}));
             sh.halt_notify.notify_one();
             std::future::pending::<()>().await;
         }
